@@ -317,8 +317,8 @@ def absorb_helpers(P, R, fams, tabfams):
             return None
         out = []
         for f, blk in callers.get(u, []):
-            if cc.root_of(f) == cc.root_of(u):
-                continue          # a helper calling itself adds no new calling context
+            if f == u or f.startswith(u + "::{closure"):
+                continue          # a helper calling itself (directly or from one of its closures) adds no new calling context
             d = cfgmod.ctrl_depth(P.cfgs[f], blk) if blk is not None else 0
             if fam_of.get(f) in tabfams:
                 out.append((f, d))
